@@ -156,6 +156,21 @@ pub fn c07(ctx: &mut Ctx, tier: &str, r: &mut Rng, js: &[Value], reqs: &[String]
             }
         }
     }
+    if !replay_only {
+        // corners of the search loops: poles and near-poles (no good day within the year) on calendar
+        // corner dates, under the two nearest-good-day policies, incl. interval methods
+        for la in [90., -90., 89.5, -85., 82.5] {
+            for (y, m, d) in [(2024, 2, 29), (2000, 2, 29), (2023, 2, 28), (2100, 3, 1), (2023, 1, 1), (2023, 12, 31), (2023, 6, 21), (2024, 12, 21)] {
+                for pol in [5usize, 6] {
+                    for me in [Method::Mwl, Method::UmmAlQurra, Method::Egyptian] {
+                        let mut p = Params::new(me);
+                        p.extreme_latitude_method = policy(pol, 48.5);
+                        cases.push(DayCase { p, l: loc(la, 10., 0., 1.), rd: rd_of(y, m, d), w: None });
+                    }
+                }
+            }
+        }
+    }
     let (tx, rx) = mpsc::channel::<Option<usize>>();
     let work = cases.clone();
     let handle = std::thread::spawn(move || {
